@@ -55,7 +55,7 @@ class W:
             return 0
         return self.fieldnames.setdefault(n, len(self.fieldnames) + 1)
 
-    def ref(self, name, fields, typ="R", idhex=None):
+    def ref(self, name, fields, typ="R", idhex=None, file=1):
         """fields: list of (name, kind, csvtype); typ R = active read, P = passive with master data, S = scan of 08"""
         idhex = idhex or "0d%02x00" % (len(self.refs) + 1)
         r = {"name": name, "fields": fields, "typ": typ, "id": idhex}
@@ -66,33 +66,34 @@ class W:
         line = ("u" if typ == "P" else "r") + ",ref,%s,,,08,b509,%s" % (name, idhex)
         for (fn, kind, ct) in fields:
             line += ",%s,%s,%s,,," % (fn, part, ct)
-        self.lines.append(line)
+        self.lines.append(("@2 " if file == 2 else "") + line)
         self.refs.append(r)
         return len(self.refs)
 
-    def cond(self, cname, refidx, values, field="", kind=None):
+    def cond(self, cname, refidx, values, field="", kind=None, file=1):
+        """file = 2: the condition is defined in a second definition file (same names may be used in both files)"""
         r = self.refs[refidx - 1]
         items = [_item(x) for x in values.split(";")] if values else []
         k = kind or ("seen" if not items else "str" if items[0]["op"] == "str" else "num")
         if r["typ"] == "S":
             self.lines.insert(0, "*[%s],,,,%s,08,%s" % (cname, field, values))
         else:
-            self.lines.insert(0, "*[%s],ref,%s,,%s,,%s" % (cname, r["name"], field, values))
-        self.conds[cname] = {"r": refidx, "k": k, "fn": self.fid(field), "items": items}
+            self.lines.insert(0, ("@2 " if file == 2 else "") + "*[%s],ref,%s,,%s,,%s" % (cname, r["name"], field, values))
+        self.conds[cname + ("@2" if file == 2 else "")] = {"r": refidx, "k": k, "fn": self.fid(field), "items": items}
 
     def derived(self, cname, base, values):
         b = self.conds[base]
         items = [_item(x) for x in values.lstrip("=").split(";")]
         self.conds[cname] = {"r": b["r"], "k": "str" if items[0]["op"] == "str" else "num", "fn": b["fn"], "items": items}
 
-    def dep(self, condnames, name=None, idhex=None):
+    def dep(self, condnames, name=None, idhex=None, file=1):
         name = name or "d%d" % (len(self.deps) + 1)
         if idhex is None:
             idhex = "0d%02x00" % self.nextid
             self.nextid += 1
         idx = sum(1 for d in self.deps if d["name"] == name)
-        self.lines.append("%sr,dep,%s,,,08,b509,%s,,,UCH" % ("".join("[%s]" % c for c in condnames), name, idhex))
-        self.deps.append({"name": name, "idx": idx, "id": idhex, "conds": [self.conds[c] for c in condnames]})
+        self.lines.append(("@2 " if file == 2 else "") + "%sr,dep,%s,,,08,b509,%s,,,UCH" % ("".join("[%s]" % c for c in condnames), name, idhex))
+        self.deps.append({"name": name, "idx": idx, "id": idhex, "conds": [self.conds[c + ("@2" if file == 2 else "")] for c in condnames]})
         return len(self.deps)
 
     def val(self, refidx, values):
@@ -205,6 +206,19 @@ def worlds(thorough):
     for v in (1, 2, 3):
         w.val(r, [v])
     w.find("x"); w.findm("0d2000")
+    ws.append(w)
+    # two definition files that use the same condition names and the same combined list, each on its own messages:
+    # a guarded message follows the referenced messages of ITS OWN file
+    w = W("twofiles")
+    r1 = w.ref("x1", NUM1)
+    r2 = w.ref("x2", NUM1, file=2)
+    w.cond("modeon", r1, ">=1"); w.cond("pumpon", r1, "<=2")
+    w.cond("modeon", r2, ">=1", file=2); w.cond("pumpon", r2, "<=2", file=2)
+    w.dep(["modeon", "pumpon"]); w.dep(["modeon", "pumpon"], file=2)
+    for v in (1, 3):
+        w.val(r1, [v])
+    for v in (1, 3):
+        w.val(r2, [v])
     ws.append(w)
     multi = [("a", "num", "UCH"), ("b", "num", "UCH"), ("s", "str", "STR:2")]
     mvals = [(1, 1, "ab"), (2, 1, "ab"), (1, 2, "ab"), (1, 2, "cd"), (2, 2, "cd")]
